@@ -20,7 +20,7 @@ RULE = (
     "rejects at some call."
 )
 
-LVOCAB = [("layer", "a"), ("layer", "b"), ("cms", "x"), ("cms", "y"), ("cml", ["x"]), ("cml", ["y"]), ("cml", ["x", "y"]),
+LVOCAB = [("layer", "a"), ("layer", "b"), ("cms", "x"), ("cms", "y"), ("cml", ["x"]), ("cml", ["y"]), ("cml", ["x", "y"]), ("cml", []),
           ("rx", "r.*"), ("with",)]
 
 
